@@ -182,7 +182,12 @@ def real_mutation(mj):
         return M.RenameField(mj['model'], mj['old'], mj['new'], db_column=mj.get('db_column'),
                              db_table=mj.get('db_table'))
     if t == 'ChangeMeta':
-        return M.ChangeMeta(mj['model'], mj['prop'], mj['py_value'])
+        val = mj['py_value']
+        if mj['prop'] == 'constraints':
+            # replay files keep the constraint class by name
+            from django.db import models as _dm
+            val = [dict(d, type=getattr(_dm, d['type'])) if isinstance(d.get('type'), str) else d for d in val]
+        return M.ChangeMeta(mj['model'], mj['prop'], val)
     if t == 'RenameModel':
         return M.RenameModel(mj['old'], mj['new'], db_table=mj['db_table'])
     if t == 'DeleteModel':
